@@ -141,7 +141,7 @@ fn quad5_moment<const D: usize>() {
     let diff = got - want;
     #[cfg(kani)]
     {
-        crate::rt::record(diff <= 1e-15 && diff >= -1e-15);
+        crate::rt::record2(diff <= 1e-15 && diff >= -1e-15, diff <= 1e-14 && diff >= -1e-14);
     }
     #[cfg(not(kani))]
     {
@@ -179,7 +179,7 @@ fn quad5_mono<const D: usize>() {
     let diff = got - want;
     #[cfg(kani)]
     {
-        crate::rt::record(diff <= 1e-12 * m && diff >= -1e-12 * m);
+        crate::rt::record2(diff <= 1e-12 * m && diff >= -1e-12 * m, diff <= 1e-10 * m && diff >= -1e-10 * m);
     }
     #[cfg(not(kani))]
     {
@@ -230,3 +230,17 @@ harness!(name=c07_samples_mismatch, prop=C07, mode=R, kind=mustpanic, tier=quick
     let x: [f64; 2] = inp::arr(100);
     vmustpanic!(trapezoid(&y, Some(&x), None), "length mismatch");
 });
+
+// @bound c07_romberg_eps_: 3 levels, symbolic tolerance eps in [0, 1e-3], monomial degree D <= 5, a, b in [-1000, 1000]
+// @claim c07_romberg_eps_: with a positive tolerance the early exit may only return the last diagonal entry available with 3 levels, so the result is still exact for degree <= 5 (R)
+// @assume c07_romberg_eps_: a, b in [-1000, 1000], 0 <= eps <= 1e-3
+fn romberg_eps<const D: usize>() {
+    let (a, b, eps) = (inp::f64(0), inp::f64(1), inp::f64(2));
+    vassume!(a >= -1000.0 && a <= 1000.0 && b >= -1000.0 && b <= 1000.0 && eps >= 0.0 && eps <= 1.0e-3);
+    let want = mono_int(a, b, D);
+    let tol = 1e-9 * powu(mag(a, b), D + 1);
+    vclose!(romberg(|x| powu(x, D), a, b, eps, 3), want, tol, "romberg eps>0, 3 levels, degree {}", D);
+}
+harness!(name=c07_romberg_eps_d2, prop=C07, mode=R, kind=normal, tier=quick, unwind=8, { romberg_eps::<2>() });
+harness!(name=c07_romberg_eps_d4, prop=C07, mode=R, kind=normal, tier=quick, unwind=8, { romberg_eps::<4>() });
+harness!(name=c07_romberg_eps_d5, prop=C07, mode=R, kind=normal, tier=thorough, unwind=8, { romberg_eps::<5>() });
